@@ -528,9 +528,9 @@ func GenOps(t *rapid.T, u Universe) []Op {
 		self := c.Subj == c.Iss && c.Key == c.Sign
 		root := false
 		if self {
-			root = rapid.IntRange(0, 2).Draw(t, "selfroot") != 0
+			root = rapid.IntRange(0, 3).Draw(t, "selfroot") != 0
 		} else {
-			root = rapid.IntRange(0, 6).Draw(t, "root") == 0
+			root = rapid.IntRange(0, 5).Draw(t, "root") == 0
 		}
 		ops = append(ops, Op{Cert: i, Root: root})
 	}
@@ -538,4 +538,15 @@ func GenOps(t *rapid.T, u Universe) []Op {
 		ops = rapid.Permutation(ops).Draw(t, "order")
 	}
 	return ops
+}
+
+// RawName is the DER RDNSequence of subject name i (as CreateCertificate encodes it).
+func RawName(i int) []byte {
+	return Cert{Subj: i, Key: 0, Iss: i, Sign: 0, CA: true, MaxPath: -1, NB: 0, NA: len(Instants) - 1, Serial: 1}.Build().RawSubject
+}
+
+// SPKIOf is the SubjectPublicKeyInfo DER of palette key k as certificates carry
+// it (alt: the RSA encoding without NULL parameters; ignored for non-RSA keys).
+func SPKIOf(k int, alt bool) []byte {
+	return Cert{Subj: 0, Key: k, Alt: alt && isRSA(k), Iss: 0, Sign: k, CA: true, MaxPath: -1, NB: 0, NA: len(Instants) - 1, Serial: 1}.Build().SPKI
 }
